@@ -633,7 +633,8 @@ public:
     friend std::ostream &operator<<(std::ostream &o, const Real &r) { return o << r.f.key(); }
 };
 
-inline void declare_inf(const std::vector<Real> &weights) {
+template<class V>
+inline void declare_inf(const std::vector<V> &weights) {
     Engine *e = E();
     e->inf_var = new_real_var("INF", true);
     Lin sum;
